@@ -14,4 +14,5 @@ INVARIANT C13_OwnFirst
 INVARIANT C13_Once
 INVARIANT C13_Replaced
 INVARIANT C13_WalkIsBehaviour
+CONSTRAINT EmitInit
 CHECK_DEADLOCK FALSE
